@@ -34,7 +34,19 @@ func ndSwitchN(tag string, n int) (interface{}, bool, string) {
 	return nil, false, "absent"
 }
 
-func H11Enabled() {
+func H11Enabled() { h11Enabled(0) }
+
+// H11Alias: the aliased dependency and the grandchild, whose conditions may be
+// answered by the user's values or by the charts' own defaults.
+func H11Alias() { h11Enabled(1) }
+
+func h11Enabled(focus int) {
+	sw := func(tag string, n int, mine int) (interface{}, bool, string) {
+		if focus != mine {
+			return nil, false, "absent"
+		}
+		return ndSwitchN(tag, n)
+	}
 	parent := &chart.Chart{Metadata: &chart.Metadata{Name: "p", Version: "0.1.0", APIVersion: chart.APIVersionV2}, Values: map[string]interface{}{}}
 	d1 := mkSub("d1")
 	g := mkSub("g")
@@ -42,18 +54,21 @@ func H11Enabled() {
 	d1.SetDependencies(g)
 	sub := mkSub("sub")
 	// the aliased chart's OWN defaults may answer its condition (second.enabled)
-	subDef, subDefP, _ := ndSwitchN("subdefaults.enabled", 3)
+	subDef, subDefP, _ := sw("subdefaults.enabled", 3, 1)
 	if subDefP {
 		sub.Values["enabled"] = subDef
 	}
 	// ... and d1's own defaults may answer its grandchild's condition (d1.g.enabled)
-	gDef, gDefP, _ := ndSwitchN("d1defaults.g.enabled", 3)
+	gDef, gDefP, _ := sw("d1defaults.g.enabled", 3, 1)
 	if gDefP {
 		d1.Values["g"] = map[string]interface{}{"enabled": gDef}
 	}
 	// d1: up to two condition paths and up to two tags; "sub" imported under the alias "second"
-	conds := []string{"", "d1.enabled", "d1.enabled,flags.on", "flags.on,d1.enabled", " d1.enabled "}[ndChoice("d1.condition", 5)]
-	tags := [][]string{nil, {"t1"}, {"t1", "t2"}}[ndChoice("d1.tags", 3)]
+	conds, tags := "d1.enabled", []string(nil)
+	if focus == 0 {
+		conds = []string{"", "d1.enabled", "d1.enabled,flags.on", "flags.on,d1.enabled", " d1.enabled "}[ndChoice("d1.condition", 5)]
+		tags = [][]string{nil, {"t1"}, {"t1", "t2"}}[ndChoice("d1.tags", 3)]
+	}
 	dep1 := &chart.Dependency{Name: "d1", Version: "0.1.0", Condition: conds, Tags: tags}
 	dep2 := &chart.Dependency{Name: "sub", Version: "0.1.0", Alias: "second", Condition: "second.enabled"}
 	parent.Metadata.Dependencies = []*chart.Dependency{dep1, dep2}
@@ -61,16 +76,16 @@ func H11Enabled() {
 
 	vals := map[string]interface{}{}
 	d1sec := map[string]interface{}{}
-	en, enP, _ := ndSwitch("values.d1.enabled")
+	en, enP, _ := ndSwitchN("values.d1.enabled", 5-2*focus)
 	if enP {
 		d1sec["enabled"] = en
 	}
-	fl, flP, _ := ndSwitch("values.flags.on")
+	fl, flP, _ := sw("values.flags.on", 5, 0)
 	if flP {
 		vals["flags"] = map[string]interface{}{"on": fl}
 	}
-	t1, t1P, _ := ndSwitchN("values.tags.t1", vBound("minor", 5))
-	t2, t2P, _ := ndSwitchN("values.tags.t2", vBound("minor", 5))
+	t1, t1P, _ := sw("values.tags.t1", vBound("minor", 5), 0)
+	t2, t2P, _ := sw("values.tags.t2", vBound("minor", 5), 0)
 	if t1P || t2P {
 		tg := map[string]interface{}{}
 		if t1P {
@@ -81,14 +96,14 @@ func H11Enabled() {
 		}
 		vals["tags"] = tg
 	}
-	gen, genP, _ := ndSwitchN("values.d1.g.enabled", vBound("minor", 5))
+	gen, genP, _ := sw("values.d1.g.enabled", 5, 1)
 	if genP {
 		d1sec["g"] = map[string]interface{}{"enabled": gen}
 	}
 	if len(d1sec) > 0 {
 		vals["d1"] = d1sec
 	}
-	sen, senP, _ := ndSwitchN("values.second.enabled", vBound("minor", 5))
+	sen, senP, _ := sw("values.second.enabled", 5, 1)
 	if senP {
 		vals["second"] = map[string]interface{}{"enabled": sen}
 	}
